@@ -171,7 +171,9 @@ MENU = ('direct', 'schematic', 'chain', 'small_theory')
 
 def _child(seq: list) -> Any:
     env = dict(os.environ)
-    env['PYTHONPATH'] = ROOT + ':/repo/generation/src'
+    from ..paths import REPO
+
+    env['PYTHONPATH'] = ROOT + f':{REPO}/generation/src'
     r = subprocess.run([sys.executable, '-m', 'vf.c18_child', json.dumps({'sequence': seq})], capture_output=True, text=True, env=env, cwd=ROOT)
     if r.returncode != 0:
         raise RuntimeError('child failed: ' + r.stderr[-800:])
